@@ -69,7 +69,7 @@ def genParams : NormalParams :=
 
 /-- what the proofs need of the constants -/
 def NormalParams.ok (P : NormalParams) : Prop :=
-  P.matchLenMin = 2 ∧ P.matchLenMax = 273 ∧ P.reps = 4 ∧ 0 < P.infinity
+  P.matchLenMin = 2 ∧ P.matchLenMax = 273 ∧ P.reps = 4 ∧ 2 ≤ P.opts ∧ 1152 * P.opts < P.infinity
 
 instance (P : NormalParams) : Decidable P.ok := by unfold NormalParams.ok; infer_instance
 
@@ -426,7 +426,41 @@ def firstRepPrices (E : Env) (c : Coder) (posState anyRep : Nat) (lens : List Na
       let lrp := longRepPrice E.ps anyRep rep c.state posState
       offerRepLens E 0 posState lrp rep (repLen + 1 - E.P.matchLenMin) a
 
-/-- the optimiser of `get_next_symbol` (the path with `opt_cur == opt_end`) after the initial
+/-- the part of `get_next_symbol` from `update_prices()` on (reached with `opt_end >= MATCH_LEN_MIN`): fill `opts[]`
+    from position 0, run the main loop, `convert_opts`, hand out the symbols.  `opts` already holds the literal /
+    short-rep candidate in `opts[1]`; `lens` are the `rep_lens`, `mainLen` the longest match of `ms` (0 if none) -/
+def optimise {σ : Type} (F : Finder σ) (E : Env) (p : Nat) (c : Coder) (opts : Opts) (mf : σ) (ms : List Match)
+    (lens : List Nat) (mainLen optEnd : Nat) : Step σ :=
+  let P := E.P
+  let d := E.d
+  let posState := E.posState p
+  let anyMatch := anyMatchPrice E.ps c.state posState
+  let anyRep := anyRepPrice E.ps anyMatch c.state
+  -- `update_prices()`
+  let pt := E.pt.update E.ps
+  let E := { E with pt := pt }
+  let opts := opts.modify 0 fun o => { o with c := c }
+  -- `for i in (MATCH_LEN_MIN..=opt_end).rev() { opts[i].reset() }`
+  let opts := resetFrom P (optEnd + 1 - P.matchLenMin) (P.matchLenMin - 1) opts
+  let a : OA := { opts := opts, optEnd := optEnd }
+  let a := firstRepPrices E c posState anyRep lens a
+  -- normal matches longer than rep0
+  let len := max (lens.getD 0 0 + 1) P.matchLenMin
+  let a :=
+    if len ≤ mainLen then
+      let nmp := normalMatchPrice E.ps anyMatch c.state
+      let msA := ms.toArray
+      firstMatchLoop E msA posState nmp (mainLen + 1) len (firstAtLeast msA len msA.size 0) a
+    else a
+  -- `avail = min(get_avail(), OPTS - 1)`
+  let avail0 := min (d.size - p) (P.opts - 1)
+  let r := mainLoop F E p avail0 P.opts 0 { a := a, mf := mf, ms := ms }
+  let cur := r.1
+  let st := r.2.1
+  let opts := convertOpts P st.a.opts cur
+  ⟨pending P d p opts cur P.opts 0, opts, pt, st.mf, st.ms, if r.2.2 then 1 else 0⟩
+
+/-- the optimiser path of `get_next_symbol` (taken when `opt_cur == opt_end`) after the initial
     `if read_ahead == -1 { find_matches() }`, at position `p < data.size`: `read_ahead = 0`, the finder has consumed
     position `p`, `ms` are its matches there.  `E.ps` / `E.pt` / `c` are the probabilities, price tables and coder
     state at this moment. -/
@@ -466,30 +500,7 @@ def nextCore {σ : Type} (F : Finder σ) (E : Env) (p : Nat) (c : Coder) (opts :
           if optEnd < P.matchLenMin then
             -- `back = opts[1].back_prev; return 1`
             ⟨[(symOf P d p (oat opts 1).backPrev 1, 1)], opts, E.pt, mf, ms, 0⟩
-          else
-            -- `update_prices()`
-            let pt := E.pt.update E.ps
-            let E := { E with pt := pt }
-            let opts := opts.modify 0 fun o => { o with c := c }
-            -- `for i in (MATCH_LEN_MIN..=opt_end).rev() { opts[i].reset() }`
-            let opts := resetFrom P (optEnd + 1 - P.matchLenMin) (P.matchLenMin - 1) opts
-            let a : OA := { opts := opts, optEnd := optEnd }
-            let a := firstRepPrices E c posState anyRep lens a
-            -- normal matches longer than rep0
-            let len := max (lens.getD 0 0 + 1) P.matchLenMin
-            let a :=
-              if len ≤ mainLen then
-                let nmp := normalMatchPrice E.ps anyMatch c.state
-                let msA := ms.toArray
-                firstMatchLoop E msA posState nmp (mainLen + 1) len (firstAtLeast msA len msA.size 0) a
-              else a
-            -- `avail = min(get_avail(), OPTS - 1)`
-            let avail0 := min (d.size - p) (P.opts - 1)
-            let r := mainLoop F E p avail0 P.opts 0 { a := a, mf := mf, ms := ms }
-            let cur := r.1
-            let st := r.2.1
-            let opts := convertOpts P st.a.opts cur
-            ⟨pending P d p opts cur P.opts 0, opts, pt, st.mf, st.ms, if r.2.2 then 1 else 0⟩
+          else optimise F E p c opts mf ms lens mainLen optEnd
 
 /-- the context `encode_symbol` codes a symbol in, at logical position `q` (cf. `Lzma.ctxOf`) -/
 def ctxAt (d : Array UInt8) (q : Nat) (c : Coder) : Ctx :=
